@@ -31,6 +31,7 @@ package servicediscovery
 //@ let R = servicediscovery.Client.Rebalance
 //@ modifies s.info, calls("servicediscovery.(*serviceDiscovery).SetInfo"), calls(EventBus.Bus.Publish), calls(servicediscovery.Client.Rebalance), calls("servicediscovery.(*serviceDiscovery).GetAll")
 //@ loop 1
+//@   invariant.every_round ncalls("servicediscovery.(*serviceDiscovery).SetInfo") - old(ncalls("servicediscovery.(*serviceDiscovery).SetInfo")) == ncalls("servicediscovery.(*serviceDiscovery).GetAll") - old(ncalls("servicediscovery.(*serviceDiscovery).GetAll"))
 //@   invariant.round_complete ncalls("servicediscovery.(*serviceDiscovery).SetInfo") > old(ncalls("servicediscovery.(*serviceDiscovery).SetInfo")) ==> ncalls(servicediscovery.Client.Rebalance) - countat(servicediscovery.Client.Rebalance, "servicediscovery.(*serviceDiscovery).SetInfo", ncalls("servicediscovery.(*serviceDiscovery).SetInfo") - 1) == argat("servicediscovery.(*serviceDiscovery).SetInfo", ncalls("servicediscovery.(*serviceDiscovery).SetInfo") - 1, totalMembers) - 1
 //@   invariant.leader_is_one forall i int :: old(ncalls("servicediscovery.(*serviceDiscovery).SetInfo")) <= i && i < ncalls("servicediscovery.(*serviceDiscovery).SetInfo") ==> argat("servicediscovery.(*serviceDiscovery).SetInfo", i, memberNumber) == 1
 //@   invariant.followers_from_two forall i int :: old(ncalls(servicediscovery.Client.Rebalance)) <= i && i < ncalls(servicediscovery.Client.Rebalance) ==> 2 <= argat(servicediscovery.Client.Rebalance, i, memberNumber) && argat(servicediscovery.Client.Rebalance, i, memberNumber) <= argat(servicediscovery.Client.Rebalance, i, totalMembers)
@@ -44,3 +45,19 @@ package servicediscovery
 //@   invariant.this_round forall i int :: countat(servicediscovery.Client.Rebalance, "servicediscovery.(*serviceDiscovery).SetInfo", ncalls("servicediscovery.(*serviceDiscovery).SetInfo") - 1) <= i && i < ncalls(servicediscovery.Client.Rebalance) ==> argat(servicediscovery.Client.Rebalance, i, totalMembers) == totalMembers && argat(servicediscovery.Client.Rebalance, i, memberNumber) <= rangeindex + 2
 //@   invariant.distinct forall i int, j int :: countat(servicediscovery.Client.Rebalance, "servicediscovery.(*serviceDiscovery).SetInfo", ncalls("servicediscovery.(*serviceDiscovery).SetInfo") - 1) <= i && i < j && j < ncalls(servicediscovery.Client.Rebalance) ==> argat(servicediscovery.Client.Rebalance, i, memberNumber) < argat(servicediscovery.Client.Rebalance, j, memberNumber)
 //@   modifies calls(servicediscovery.Client.Rebalance)
+
+// A (re-)registering follower replaces the entry held for its name: the leader talks to the newest connection (C10).
+//@ func (*serviceDiscovery).Add
+//@ props C10
+//@ requires s != nil && s.services != nil && service != nil
+//@ ensures.registered[C10] has(s.services, service.Name) && s.services[service.Name] == service
+//@ ensures.others_kept[C10] forall n string :: n != service.Name ==> has(s.services, n) == old(has(s.services, n)) && (has(s.services, n) ==> s.services[n] == old(s.services[n]))
+//@ modifies content(s.services)
+
+//@ func (*serviceDiscovery).Remove
+//@ props C10
+//@ requires s != nil && s.services != nil
+//@ requires forall n string :: has(s.services, n) ==> s.services[n] != nil && s.services[n].Client != nil
+//@ ensures.dropped[C10] !has(s.services, name)
+//@ ensures.others_kept[C10] forall n string :: n != name ==> has(s.services, n) == old(has(s.services, n)) && (has(s.services, n) ==> s.services[n] == old(s.services[n]))
+//@ modifies content(s.services), calls(servicediscovery.Client.Close)
